@@ -876,4 +876,13 @@ Section EndToEnd.
   Proof. destruct gen_run as (steps & HR & HF & ->). apply C03_B; assumption. Qed.
   Theorem gen_C05 : oracle_C05 (c_version c) (g_out r) = true.
   Proof. destruct gen_run as (steps & HR & HF & ->). apply C05_B; assumption. Qed.
+  (* C17 on the generated bytes: they lex to tokens every prefix of which the reference machine accepts,
+     in a state related by invb to the simulated state after the same prefix *)
+  Theorem gen_C17 : exists ts, lex_all (g_out r) = Some ts /\ forall n, exists rn,
+      ref_run rinit (firstn n ts) = Some rn /\ invb (sim_after c ts n) rn = true.
+  Proof.
+    destruct gen_run as (steps & HR & HF & ->). exists (run_tokens c (g_framed r) steps).
+    split; [apply run_bytes_lex; assumption|]. intro n.
+    destruct (C17_R c (g_framed r) steps Hsafe HR n) as (rn & H1 & _ & H3). exists rn. split; assumption.
+  Qed.
 End EndToEnd.
